@@ -118,6 +118,11 @@ _REF_OPS = {
     "contains": lambda cur, tag: tag in cur,
     "prefix": lambda cur, tag: tag[:len(cur)] == cur,
     "ieq": lambda cur, tag: cur.lower() == tag.lower(),
+    # comparison functions that answer with a TRUTHY / FALSY value instead of True / False (a match object, a
+    # count, a bit mask): the answer counts by its truth value
+    "count": lambda cur, tag: tag.count(cur),
+    "regex": lambda cur, tag: __import__("re").match(cur, tag),
+    "bitand": lambda cur, tag: cur & tag,
 }
 
 
@@ -175,6 +180,13 @@ def _behave_op(name):
         return lambda cur, tag: tag.startswith(cur)
     if name == "ieq":
         return lambda cur, tag: cur.lower() == tag.lower()
+    if name == "count":
+        return lambda cur, tag: tag.count(cur)
+    if name == "regex":
+        import re
+        return lambda cur, tag: re.match(cur, tag)
+    if name == "bitand":
+        return operator.and_
     return getattr(operator, name)
 
 
@@ -464,6 +476,8 @@ def classify(res, tags, values_list, cfg):
                     res.label("malformed-bool")
                 if desc.get("op") in ("contains", "prefix", "ieq"):
                     res.label("custom-compare")
+                if desc.get("op") in ("count", "regex", "bitand"):
+                    res.label("custom-compare:truthy-answer")
     if cfg:
         if cfg.get("prefixes") is not None:
             res.label("custom-prefixes")
@@ -1047,16 +1061,19 @@ def gen_value_desc(rnd):
         return cur, [cur, cur, cur + "y", cur[:-1]] + STRING_POOL[:4]
     lazy = rnd.random() < 0.5
     if kind == "value":
-        op = rnd.choice([None, "eq", "ne", "ge", "le", "contains", "prefix", "ieq"])
+        op = rnd.choice([None, "eq", "ne", "ge", "le", "contains", "prefix", "ieq", "count", "regex"])
         if op == "contains":
             cur = _sample(rnd, STRING_POOL, 3)
             hints = list(cur) * 2 + STRING_POOL[:3]
+        elif op in ("count", "regex"):
+            cur = rnd.choice(STRING_POOL)
+            hints = [cur, cur + cur, cur + "y" + cur, "y" + cur, cur[:-1]] + STRING_POOL[:3]
         else:
             cur = rnd.choice(STRING_POOL)
             hints = [cur, cur, cur + "y", cur[:-1], cur.upper(), cur.lower()] + STRING_POOL[:3]
         return {"kind": "value", "op": op, "value": cur, "lazy": lazy}, hints
     if kind == "number":
-        op = rnd.choice(NUMBER_OPS + ["contains"])
+        op = rnd.choice(NUMBER_OPS + ["contains", "bitand"])
         if op == "contains":
             cur = _sample(rnd, list(range(-2, 13)), 3)
             base = cur[0] if cur else 0
@@ -1250,7 +1267,7 @@ def required_labels(tier):
     return (["size:0", "size:1", "size:2", "size:3", "size:4", "excluded", "runs", "ordinary-tag", "no-active-tag",
              "unknown-category", "multi-category", "positive+negative-same-category",
              "kind:value", "kind:number", "kind:bool", "lazy-value-object", "malformed-number", "malformed-bool",
-             "custom-compare", "custom-prefixes", "prefix-contains-not-but-positive", "custom-separator",
+             "custom-compare", "custom-compare:truthy-answer", "custom-prefixes", "prefix-contains-not-but-positive", "custom-separator",
              "unknown-not-ignored", "via:subclass", "via:attr", "regex-special-separator",
              "composite-matcher", "composite-members-disagree", "composite-nested", "composite-predicate-member"]
             + ["provider:" + m for m in MODES + ["none"]]
